@@ -1,0 +1,261 @@
+// Verification hooks. This module only exists when the crate is compiled with
+// `--cfg pnordahl_monorail_verif`; it is never part of a normal build.
+//
+// It offers (a) thin public wrappers over crate-private functions, so that an
+// external harness can call the real implementation in-process, and (b)
+// `point`, a named program point at which the environment can inject a
+// delay or terminate the process, used to explore timings and crash points.
+use std::collections::{HashMap, HashSet};
+use std::path;
+use std::sync::{self, Mutex};
+
+use crate::app::{analyze, log};
+use crate::core::{self, graph};
+
+fn load_config(cfg_json: &str) -> Result<core::Config, String> {
+    serde_json::from_str::<core::Config>(cfg_json).map_err(|e| format!("json: {}", e))
+}
+
+// Adjacency of the target graph as built by `Index::new` with every target
+// visible: for each target (declaration order), the labels it depends on.
+pub fn index_edges(
+    cfg_json: &str,
+    work_path: &path::Path,
+) -> Result<Vec<(String, Vec<String>)>, String> {
+    let cfg = load_config(cfg_json)?;
+    let ths = cfg.get_target_path_set();
+    let index = core::Index::new(&cfg, &ths, work_path).map_err(|e| e.to_string())?;
+    let tmp = work_path.join(".verif-render.dot");
+    index.dag.render_dotfile(&tmp).map_err(|e| e.to_string())?;
+    let dot = std::fs::read_to_string(&tmp).map_err(|e| e.to_string())?;
+    let _ = std::fs::remove_file(&tmp);
+    let mut out: Vec<(String, Vec<String>)> = cfg
+        .targets
+        .iter()
+        .map(|t| (t.path.clone(), vec![]))
+        .collect();
+    for line in dot.lines() {
+        if let Some((a, b)) = line.trim_end_matches(';').split_once(" -> ") {
+            let a: usize = a.trim().parse().map_err(|_| "bad dot".to_string())?;
+            let b: usize = b.trim().parse().map_err(|_| "bad dot".to_string())?;
+            let label = out[b].0.clone();
+            out[a].1.push(label);
+        }
+    }
+    Ok(out)
+}
+
+// The raw dot rendering of the index graph.
+pub fn index_render(cfg_json: &str, work_path: &path::Path) -> Result<String, String> {
+    let cfg = load_config(cfg_json)?;
+    let ths = cfg.get_target_path_set();
+    let index = core::Index::new(&cfg, &ths, work_path).map_err(|e| e.to_string())?;
+    let tmp = work_path.join(".verif-render.dot");
+    index.dag.render_dotfile(&tmp).map_err(|e| e.to_string())?;
+    let dot = std::fs::read_to_string(&tmp).map_err(|e| e.to_string())?;
+    let _ = std::fs::remove_file(&tmp);
+    Ok(dot)
+}
+
+// Labeled groups of the index built with the given visible roots (`None`
+// means every configured target, as `target show`/`analyze` do).
+pub fn index_groups(
+    cfg_json: &str,
+    visible: Option<&[String]>,
+    work_path: &path::Path,
+) -> Result<Vec<Vec<String>>, String> {
+    let cfg = load_config(cfg_json)?;
+    let ths: HashSet<&String> = match visible {
+        Some(v) => v.iter().collect(),
+        None => cfg.get_target_path_set(),
+    };
+    let mut index = core::Index::new(&cfg, &ths, work_path).map_err(|e| e.to_string())?;
+    index.dag.get_labeled_groups().map_err(|e| e.to_string())
+}
+
+// `Dag` driven directly: `adj[i]` are the nodes `i` depends on; the subtree
+// of every root is made visible, then groups are computed (dependents first,
+// exactly what `get_groups` returns).
+pub fn dag_groups(adj: &[Vec<usize>], roots: &[usize]) -> Result<Vec<Vec<usize>>, String> {
+    let mut dag = graph::Dag::new(adj.len());
+    for (i, nodes) in adj.iter().enumerate() {
+        dag.set_label(&i.to_string(), i)
+            .map_err(|e| e.to_string())?;
+        dag.set(i, nodes.clone());
+    }
+    for r in roots {
+        dag.set_subtree_visibility(*r, true)
+            .map_err(|e| e.to_string())?;
+    }
+    dag.get_groups().map_err(|e| e.to_string())
+}
+
+// `analyze::analyze` over an index with every target visible; the result is
+// the JSON serialization of `AnalyzeOutput`.
+pub fn analyze(
+    cfg_json: &str,
+    changes: Option<Vec<String>>,
+    show_changes: bool,
+    show_change_targets: bool,
+    show_target_groups: bool,
+    work_path: &path::Path,
+) -> Result<String, String> {
+    let cfg = load_config(cfg_json)?;
+    let ths = cfg.get_target_path_set();
+    let mut index = core::Index::new(&cfg, &ths, work_path).map_err(|e| e.to_string())?;
+    let input = analyze::AnalyzeInput::new(show_changes, show_change_targets, show_target_groups);
+    let changes = changes.map(|v| v.into_iter().map(|name| core::Change { name }).collect());
+    let out = analyze::analyze(&input, &mut index, changes).map_err(|e| e.to_string())?;
+    serde_json::to_string(&out).map_err(|e| e.to_string())
+}
+
+pub struct CaptureReader {
+    // where the compressed log of this reader is stored
+    pub path: path::PathBuf,
+    pub header: String,
+    pub reader: Box<dyn tokio::io::AsyncRead + Unpin + Send>,
+}
+
+// Runs one `process_reader` per given reader against a `Compressor`, wired
+// the way `process_plan` wires a target group: registration in order, the
+// compressor on its own thread, one shutdown per client, then join. If
+// `log_address` is given, a log stream client is connected first, as `run`
+// does. Returns each reader's result.
+pub async fn capture(
+    readers: Vec<CaptureReader>,
+    num_threads: usize,
+    log_address: Option<(String, usize)>,
+    target: &str,
+    command: &str,
+) -> Result<Vec<Result<(), String>>, String> {
+    let lsc = match log_address {
+        Some((host, port)) => {
+            let cfg = core::server::LogServerConfig {
+                host,
+                port,
+                bind_timeout_ms: 1000,
+            };
+            log::LogServerClient::connect(&cfg).await.ok()
+        }
+        None => None,
+    };
+    let mut compressor = log::Compressor::new(
+        num_threads,
+        sync::Arc::new(sync::atomic::AtomicBool::new(false)),
+    );
+    let mut clients = vec![];
+    for r in &readers {
+        clients.push(compressor.register(&r.path).map_err(|e| e.to_string())?);
+    }
+    let handle = std::thread::spawn(move || compressor.run());
+    let token = sync::Arc::new(tokio_util::sync::CancellationToken::new());
+    let mut js = tokio::task::JoinSet::new();
+    for (i, r) in readers.into_iter().enumerate() {
+        let client = clients[i].clone();
+        let token = token.clone();
+        let lsc = match &lsc {
+            Some(l) => {
+                let allowed =
+                    log::is_log_allowed(&l.args.targets, &l.args.commands, target, command);
+                let wanted = if client.file_name == log::STDOUT_FILE {
+                    l.args.include_stdout
+                } else {
+                    l.args.include_stderr
+                };
+                if allowed && wanted {
+                    Some(l.clone())
+                } else {
+                    None
+                }
+            }
+            None => None,
+        };
+        js.spawn(async move {
+            let res = log::process_reader(
+                tokio::io::BufReader::new(r.reader),
+                client,
+                r.header,
+                lsc,
+                token,
+            )
+            .await
+            .map_err(|e| e.to_string());
+            (i, res)
+        });
+    }
+    let mut results: Vec<Result<(), String>> = clients.iter().map(|_| Ok(())).collect();
+    while let Some(j) = js.join_next().await {
+        let (i, res) = j.map_err(|e| e.to_string())?;
+        results[i] = res;
+    }
+    for c in &clients {
+        c.shutdown().await.map_err(|e| e.to_string())?;
+    }
+    handle
+        .join()
+        .map_err(|_| "compressor panicked".to_string())?
+        .map_err(|e| e.to_string())?;
+    Ok(results)
+}
+
+pub fn log_header(file_name: &str, target: &str, command: &str, color: bool) -> String {
+    log::get_header(file_name, target, command, color)
+}
+
+static POINT_HITS: Mutex<Option<HashMap<String, usize>>> = Mutex::new(None);
+
+extern "C" {
+    fn kill(pid: i32, sig: i32) -> i32;
+    fn getpid() -> i32;
+}
+
+// A named program point. `MONORAIL_VERIF_POINTS` is a comma separated list of
+//   delay:<name>:<milliseconds>   sleep every time the point is reached
+//   kill:<name>:<n>               SIGKILL this process at the n-th hit (1-based)
+//   trace:<file>                  append the name of every point reached to <file>
+pub fn point(name: &str) {
+    let spec = match std::env::var("MONORAIL_VERIF_POINTS") {
+        Ok(s) => s,
+        Err(_) => return,
+    };
+    let hit = {
+        let mut guard = POINT_HITS.lock().unwrap();
+        let m = guard.get_or_insert_with(HashMap::new);
+        let c = m.entry(name.to_string()).or_insert(0);
+        *c += 1;
+        *c
+    };
+    for item in spec.split(',') {
+        let mut it = item.splitn(3, ':');
+        match (it.next(), it.next(), it.next()) {
+            (Some("trace"), Some(file), rest) => {
+                use std::io::Write;
+                let file = match rest {
+                    Some(r) => format!("{}:{}", file, r),
+                    None => file.to_string(),
+                };
+                if let Ok(mut f) = std::fs::OpenOptions::new()
+                    .create(true)
+                    .append(true)
+                    .open(file)
+                {
+                    let _ = writeln!(f, "{}", name);
+                }
+            }
+            (Some("delay"), Some(n), Some(ms)) if n == name => {
+                if let Ok(ms) = ms.parse::<u64>() {
+                    std::thread::sleep(std::time::Duration::from_millis(ms));
+                }
+            }
+            (Some("kill"), Some(n), Some(nth)) if n == name => {
+                if nth.parse::<usize>() == Ok(hit) {
+                    unsafe {
+                        kill(getpid(), 9);
+                    }
+                    std::thread::sleep(std::time::Duration::from_secs(60));
+                }
+            }
+            _ => {}
+        }
+    }
+}
